@@ -21,7 +21,8 @@ pub fn too_far(a: &BoxR, b: &BoxR) -> (bool, f64) {
     let (x, y) = (rbox(a), rbox(b));
     let d2 = (x.xc - y.xc).powi(2) + (x.yc - y.yc).powi(2);
     let r = x.radius() + y.radius();
-    (d2 > r * r, (d2.sqrt() - r).abs())
+    // the slack is relative to the reach, so that the decision margin is scale-free
+    (d2 > r * r, (d2.sqrt() - r).abs() / r.max(1e-30))
 }
 
 pub fn dist_in_2r(a: &BoxR, b: &BoxR) -> f64 {
